@@ -25,6 +25,12 @@ TLA_JAR = "/opt/veriftools/tla/tla2tools.jar:/opt/veriftools/tla/CommunityModule
 GOENV = dict(GOFLAGS="-mod=mod", GOPROXY="off", GOSUMDB="off", GOTOOLCHAIN="local")
 
 
+class LibraryCrash(Exception):
+    def __init__(self, crash, driver):
+        Exception.__init__(self, crash["what"])
+        self.crash, self.driver = crash, driver
+
+
 class Inconclusive(Exception):
     pass
 
@@ -88,6 +94,26 @@ class Ctx:
             raise Inconclusive("harness build failed (does /repo compile?):\n" + r.stdout + r.stderr)
         return out
 
+    @staticmethod
+    def library_panic(r):
+        """If the driver process died of a panic / fatal error raised inside the repository's code in a goroutine the driver
+        cannot guard (one the library starts itself), return a description; otherwise None."""
+        txt = (r.stdout or "") + (r.stderr or "")
+        m = re.search(r"^(panic: [^\n]*|fatal error: [^\n]*)", txt, re.M)
+        if not m or m.group(1).startswith("panic: driver"):
+            return None
+        tail = txt[m.start():]
+        # the innermost frame that is not the Go runtime's decides whose failure it is
+        for fn in re.findall(r"^([A-Za-z0-9_./\-]+(?:\.\(\*?\w+\))?\.[\w.]+)\(", tail, re.M):
+            if fn.startswith(("runtime.", "panic", "sync.", "internal/", "reflect.")):
+                continue
+            if fn.startswith("github.com/goblimey/go-ntrip/"):
+                return dict(what=m.group(1)[:200], trace=tail[:3000])
+            return None
+        if m.group(1).startswith("fatal error: concurrent map") and "go-ntrip/" in tail:
+            return dict(what=m.group(1)[:200], trace=tail[:3000])
+        return None
+
     def drive(self, binary, args, timeout=600, env=None, ok_codes=(0,)):
         e = self.goenv()
         if env:
@@ -99,6 +125,9 @@ class Ctx:
         except subprocess.TimeoutExpired:
             raise Inconclusive("driver timed out: %s" % " ".join(args))
         if r.returncode not in ok_codes:
+            crash = self.library_panic(r)
+            if crash:
+                raise LibraryCrash(crash, " ".join(args[:2]))
             raise Inconclusive("driver failed rc=%d: %s\n%s\n%s" % (
                 r.returncode, " ".join(args), r.stdout[-4000:], r.stderr[-4000:]))
         self.notes.append("drive %s: %.1fs" % (" ".join(args[:3]), time.time() - t))
@@ -125,11 +154,11 @@ class Ctx:
         self.overlay_crash = None
         if r.returncode != 0 or not os.path.exists(out_path):
             txt = r.stdout + r.stderr
-            m = re.search(r"^(panic: [^\n]*|fatal error: [^\n]*)", txt, re.M)
-            # a panic in a goroutine of the application (its stack goes through the repository, not through the injected
+            # a panic in a goroutine of the application (its innermost frame lies in the repository, not in the injected
             # test) ends the test process: that is the application dying on this input, not a fault of the harness
-            if m and "go-ntrip/" in txt[m.start():] and os.path.exists(out_path):
-                self.overlay_crash = dict(what=m.group(1)[:200], trace=txt[m.start():m.start() + 3000])
+            crash = self.library_panic(r)
+            if crash and os.path.exists(out_path):
+                self.overlay_crash = crash
                 return r
             raise Inconclusive("overlay test of %s failed rc=%d:\n%s\n%s" % (app, r.returncode, r.stdout[-3000:], r.stderr[-3000:]))
         return r
@@ -404,6 +433,15 @@ def main(run_fn, pid):
         log("INCONCLUSIVE %s: %s" % (pid, e))
         shutil.rmtree(ctx.work, ignore_errors=True)
         sys.exit(2)
+    except LibraryCrash as e:
+        # the driver process was killed by a panic / fatal error raised inside the repository's code in a goroutine that the
+        # library starts itself (the driver guards every call it makes, but cannot guard those): the code under test
+        # crashed on a generated case - a violation, whatever the property, reported with the stack
+        ctx.violation(dict(kind="library-panic", what=e.crash["what"][:80], driver=e.driver), dict(crash=e.crash))
+        sys.exit(ctx.finish(level="model_checking",
+                            rule="the run ended when the process playing the cases died inside the library (see the violation's replay file for the stack); no further case was judged",
+                            assumptions=["a panic or fatal runtime error whose stack lies in github.com/goblimey/go-ntrip is the library's failure, not the harness's"],
+                            exhaustive=False))
     except Exception:       # noqa - a fault of the checking machinery itself is never a verdict on the code
         import traceback
         log("INCONCLUSIVE %s: internal error of the check\n%s" % (pid, traceback.format_exc()[-3000:]))
